@@ -334,6 +334,71 @@ fn corpus(seed: u64, k: u64) -> Vec<Step> {
     }
 }
 
+/// Systematic history sweep: EVERY sequence of messages up to a given length over the lifecycle
+/// alphabet of the property (initialize, initialized, supported request, unknown request, document
+/// notifications, unknown notification, shutdown, exit, text probe), delivered one frame per
+/// write, with end of input behind the last message. `all_sequences_len(n)` sequences of length
+/// 1..=n; index `i` decodes to a sequence in base-`ALPHABET` digits.
+pub const ALPHABET: u64 = 10;
+
+pub fn all_sequences_len(max_len: u32) -> u64 {
+    (1..=max_len).map(|l| ALPHABET.pow(l)).sum()
+}
+
+pub fn sequence(seed: u64, mut i: u64, max_len: u32) -> Option<Scenario> {
+    let mut len = 1;
+    while len <= max_len && i >= ALPHABET.pow(len) {
+        i -= ALPHABET.pow(len);
+        len += 1;
+    }
+    if len > max_len {
+        return None;
+    }
+    let mut s = Session::new();
+    let uri = fresh_uri(0);
+    let mut digits = vec![];
+    for _ in 0..len {
+        digits.push(i % ALPHABET);
+        i /= ALPHABET;
+    }
+    for d in &digits {
+        match d {
+            0 => s.init(true),
+            1 => s.initialized(),
+            2 => {
+                s.request("textDocument/hover", &uri, 3, 9);
+            }
+            3 => {
+                s.unknown_request("workspace/symbol");
+            }
+            4 => s.open(&uri, DOC),
+            5 => s.change(&uri, vec![Edit { range: Some([2, 7, 2, 8]), text: "2".into() }]),
+            6 => s.unknown_notification("$/cancelRequest"),
+            7 => {
+                s.shutdown();
+            }
+            8 => s.exit(),
+            _ => {
+                s.probe(&uri);
+            }
+        }
+    }
+    Some(Scenario {
+        property: ID.into(),
+        label: format!("history sweep: {}", digits.iter().map(|d| d.to_string()).collect::<String>()),
+        seed,
+        knobs: Knobs::shipped(),
+        schedule: Schedule {
+            policy: if digits.iter().sum::<u64>() % 2 == 0 { Policy::Fifo } else { Policy::Uniform },
+            seed: digits.iter().fold(7u64, |a, d| a.wrapping_mul(31).wrapping_add(*d)),
+        },
+        script: s.steps,
+        segmentation: if digits[0] % 2 == 0 { Segmentation::Frames } else { Segmentation::Coalesced },
+        faults: vec![],
+        close_at_end: true,
+    })
+}
+
 /// Systematic sweep: end of input after every byte prefix of the corpus sessions.
 pub fn sweep_sizes(seed: u64, corpus_n: u64) -> Vec<(u64, usize)> {
     (0..corpus_n)
